@@ -14,6 +14,7 @@ func init() { register("C04", checkC04) }
 func checkC04(c *Check) {
 	c.connUses("C04.1 connection-use")
 	c.writeSites("C04.1 single-framed-write")
+	c.specConstants("C04.2 spec-constants", "openMessageType", "updateMessageType", "notificationMessageType", "keepAliveMessageType", "headerLength", "maxMessageLength")
 	c.prependHeaderShape("C04.2 header-shape")
 	c.writeUpdateContract("C04.3 writeupdate")
 	c.handlerDiscipline("C04.4 session-scope")
